@@ -5,6 +5,10 @@
 V=$(cd "$(dirname "$0")/.." && pwd)
 pat=${1:-}
 fail=0
+# work on a snapshot so that edits made while this runs do not disturb it
+SNAP=$(mktemp -d /tmp/fvc-snap.XXXXXX)
+mkdir -p "$SNAP/repo" "$SNAP/spec"; cp /repo/*.go /repo/go.mod /repo/go.sum "$SNAP/repo/"; cp "$V"/spec/*.fvs "$SNAP/spec/"; cp "$V/bin/fvc" "$SNAP/fvc"; cp "$V/known_findings.json" "$SNAP/"
+trap 'rm -rf "$SNAP"' EXIT
 for m in "$V"/selftest/mutants/*${pat}*.patch "$V"/seeded/*${pat}*/patch.diff; do
   [ -f "$m" ] || continue
   case "$m" in
@@ -12,11 +16,10 @@ for m in "$V"/selftest/mutants/*${pat}*.patch "$V"/seeded/*${pat}*/patch.diff; d
     *) name=$(basename "$m" .patch); prop=${name%%-*};;
   esac
   S=$(mktemp -d /tmp/fvc-selftest.XXXXXX)
-  cp -r /repo/. "$S/repo" 2>/dev/null || { mkdir -p "$S/repo"; cp -r /repo/* "$S/repo/"; }
-  rm -rf "$S/repo/.git"
+  mkdir -p "$S/repo" "$S/verif"; cp "$SNAP"/repo/* "$S/repo/"; cp "$SNAP/known_findings.json" "$S/verif/"
   if ! (cd "$S/repo" && patch -p1 -s < "$m"); then echo "SELFTEST $name: patch does not apply"; fail=1; rm -rf "$S"; continue; fi
   if ! (cd "$S/repo" && GOFLAGS=-mod=mod GOPROXY=off GOSUMDB=off go test -vet=off -count=1 ./... >/dev/null 2>&1); then echo "SELFTEST $name: mutant does not pass the baseline tests (not a valid mutant)"; fi
-  out=$(FVC_REPO="$S/repo" FVC_VERIF="$S/verif" FVC_SPEC="$V/spec" FVC_SCRATCH="$S/scratch" "$V/bin/fvc" check -p "$prop" -tier quick 2>&1)
+  out=$(FVC_REPO="$S/repo" FVC_VERIF="$S/verif" FVC_SPEC="$SNAP/spec" FVC_SCRATCH="$S/scratch" "$SNAP/fvc" check -p "$prop" -tier quick 2>&1)
   rc=$?
   if [ $rc -eq 1 ] && echo "$out" | grep -q "^VIOLATION property=$prop"; then
     echo "SELFTEST $name: detected ($(echo "$out" | grep -c '^VIOLATION') violation lines; first: $(echo "$out" | grep -A1 '^VIOLATION' | sed -n 2p | sed 's/^ *//'))"
